@@ -1,6 +1,26 @@
 /-
 Helpers for the async SSR model (`Model/Assr.lean`): see `Props/C12Assr.lean` and `Props/C13Assr.lean`
 for the readable statements.
+
+Plan of the proof
+* collectors over built trees: `elKeys`, `suspKeys`, `holes`, `items` (holes and resource texts, each with the
+  boundary whose region it lies in).
+* `Built reg ctx st out st' sz`: `build`/`buildList` as an inductive relation (`build_built`); every fact
+  about building is an induction over it: `frame`, `keys`, `susps`, `holesOK`, `measure`, `pendCtx`,
+  `holeItems`, `guardsCtx`, `resItems`, `counts`, `bdsExt`, `waitingOK`, `first`.  Everything is stated by
+  COUNTING (`List.count`), turned into `Perm`/`Nodup` only in the Props files.
+* `fillList_elKeys` … : filling hole `h` adds `count h (holes t)` copies of the content's keys.
+* `Inv P st tree`: the invariant, `P` = the bodies that still have a hole in the tree (`st.pend` plus those
+  taken out by `settle` and not yet built). `Inv.start`, `Inv.fillStep`, `Inv.deliver`, `Inv.setSent`.
+* the transitions are cut into atomic pieces `Micro` (mark a task done / split `pend` / build one body and
+  fill its hole / deliver / send one fragment); `step` and `sendReady` are sequences `Micros` of them;
+  `Micro.inv` keeps `WInv`; `Micros.keep` lifts any property kept by the atomic pieces.
+* `Reach`, `ReachB`, `ReachS`, `run`, `streamStep`: reachable worlds.
+* `settle_complete`: the fuel of `settle` suffices (`pendMeasure` decreases every round).
+* streaming: `sendReadyK`, `sendTrace`, `sendTrace_spec`, `streamRun`/`streamAll` (the run of the driver with
+  the emitted keys), `streamRun_spec`; `PFirst`: parents first.
+* regions: `regionStr`, `Quiet`, `Micro.stable`, `region_stable`.
+* the page: `visible`, `Tok`, `renderToks`, `renderList_toks`, `visSub`, `fillSlots`.
 -/
 import SycVerif.Model.Assr
 namespace SycVerif.Assr
@@ -1859,6 +1879,923 @@ theorem streamRun_world : ∀ (es : List Ev) (w : World),
     (streamRun w es).1 = es.foldl (fun w e => (streamStep w e).1) w
   | [], w => rfl
   | e :: es, w => by rw [streamRun, List.foldl_cons, streamStep_world]; exact streamRun_world es _
+
+/-! ## the region of a boundary, rendered in shell form -/
+
+/- the equations of `render` (the generated ones time out on the string literals) -/
+theorem render_el (st : St) (how : How) (tag : Nat) (key : Key) (kids : RNs) :
+    render st how (.el tag key kids) =
+      s!"<{tagOf tag}{hk key}>" ++ renderList st how kids ++ s!"</{tagOf tag}>" := rfl
+theorem render_text (st : St) (how : How) (n : Nat) : render st how (.text n) = s!"t{n}" := rfl
+theorem render_fb (st : St) (how : How) : render st how .fb = "fb" := rfl
+theorem render_marker (st : St) (how : How) : render st how .marker = "<!--/-->" := rfl
+theorem render_resText (st : St) (how : How) (r : Nat) :
+    render st how (.resText r) =
+      "<!--t-->" ++ (if st.resDone.contains r then "r7" else "none") ++ "<!-->" := rfl
+theorem render_hole (st : St) (how : How) (i : Nat) : render st how (.hole i) = "" := rfl
+theorem render_group (st : St) (how : How) (kids : RNs) :
+    render st how (.group kids) = renderList st how kids := rfl
+theorem render_susp_final (st : St) (k : Nat) (a b : Key) (c : RNs) :
+    render st .final (.susp k a b c) =
+      s!"<suspense-start data-key=\"{k}\"{hk a}></suspense-start><no-ssr{hk b}></no-ssr><!--/-->"
+        ++ renderList st .final c ++ "<!--/-->" := rfl
+theorem render_susp_shell (st : St) (k : Nat) (a b : Key) (c : RNs) :
+    render st .shell (.susp k a b c) =
+      s!"<no-ssr{hk b}></no-ssr><suspense-start data-key=\"{k}\"{hk a}></suspense-start>fb<suspense-end data-key=\"{k}\"></suspense-end>" :=
+  rfl
+theorem renderList_nil (st : St) (how : How) : renderList st how .nil = "" := rfl
+theorem renderList_cons (st : St) (how : How) (n : RN) (r : RNs) :
+    renderList st how (.cons n r) = render st how n ++ renderList st how r := rfl
+
+mutual
+/-- filling a hole that is not in the region of `x` itself (only below nested boundaries, or nowhere) does
+not change the shell rendering -/
+theorem fill_render_shell (st : St) (h : Nat) (c : RNs) : ∀ (n : RN) (x : Option Nat),
+    (Item.hole h, x) ∉ itemsN x n → render st .shell (fill h c n) = render st .shell n
+  | .el tag key kids, x, hn => by
+    have e := fillList_render_shell st h c kids x (by simpa only [itemsN] using hn)
+    simp only [fill, render_el, e]
+  | .hole i, x, hn => by
+    by_cases hi : i = h
+    · subst hi; simp [itemsN] at hn
+    · simp only [fill, hi, if_false]
+  | .group kids, x, hn => by
+    simp only [fill, render_group]; exact fillList_render_shell st h c kids x (by simpa [itemsN] using hn)
+  | .susp k a b content, x, hn => by simp only [fill, render_susp_shell]
+  | .text _, x, hn => by simp only [fill]
+  | .fb, x, hn => by simp only [fill]
+  | .marker, x, hn => by simp only [fill]
+  | .resText r, x, hn => by simp only [fill]
+theorem fillList_render_shell (st : St) (h : Nat) (c : RNs) : ∀ (t : RNs) (x : Option Nat),
+    (Item.hole h, x) ∉ items x t → renderList st .shell (fillList h c t) = renderList st .shell t
+  | .nil, x, hn => rfl
+  | .cons n rest, x, hn => by
+    simp only [items, List.mem_append, not_or] at hn
+    simp only [fillList, renderList_cons, fill_render_shell st h c n x hn.1,
+      fillList_render_shell st h c rest x hn.2]
+end
+
+mutual
+/-- the shell rendering of a region depends on the state only through the resources shown in it -/
+theorem render_shell_congr (st st' : St) : ∀ (n : RN) (x : Option Nat),
+    (∀ r, (Item.res r, x) ∈ itemsN x n → st.resDone.contains r = st'.resDone.contains r) →
+    render st .shell n = render st' .shell n
+  | .el tag key kids, x, hr => by
+    have e := renderList_shell_congr st st' kids x (by simpa only [itemsN] using hr)
+    simp only [render_el, e]
+  | .hole i, x, hr => rfl
+  | .group kids, x, hr => by
+    simp only [render_group]; exact renderList_shell_congr st st' kids x (by simpa [itemsN] using hr)
+  | .susp k a b content, x, hr => by simp only [render_susp_shell]
+  | .text _, x, hr => rfl
+  | .fb, x, hr => rfl
+  | .marker, x, hr => rfl
+  | .resText r, x, hr => by
+    simp only [render_resText]; rw [hr r (by simp [itemsN])]
+theorem renderList_shell_congr (st st' : St) : ∀ (t : RNs) (x : Option Nat),
+    (∀ r, (Item.res r, x) ∈ items x t → st.resDone.contains r = st'.resDone.contains r) →
+    renderList st .shell t = renderList st' .shell t
+  | .nil, x, hr => rfl
+  | .cons n rest, x, hr => by
+    simp only [renderList_cons]
+    rw [render_shell_congr st st' n x (fun r hm => hr r (by simp [items, hm])),
+      renderList_shell_congr st st' rest x (fun r hm => hr r (by simp [items, hm]))]
+end
+
+mutual
+/-- the items of the region of boundary `k` are items of the tree -/
+theorem findSusp_items (k : Nat) : ∀ (n : RN) (x : Option Nat) (c : RNs), findSusp k n = some c →
+    ∀ y ∈ items (some k) c, y ∈ itemsN x n
+  | .el tag key kids, x, c, hf => by
+    simpa only [itemsN] using findSuspList_items k kids x c (by simpa [findSusp] using hf)
+  | .group kids, x, c, hf => by
+    simpa only [itemsN] using findSuspList_items k kids x c (by simpa [findSusp] using hf)
+  | .susp j a b content, x, c, hf => by
+    simp only [findSusp] at hf
+    split at hf
+    · rename_i hj; subst hj; cases hf; intro y hy; simpa only [itemsN] using hy
+    · simpa only [itemsN] using findSuspList_items k content (some j) c hf
+  | .hole _, x, c, hf => by simp [findSusp] at hf
+  | .text _, x, c, hf => by simp [findSusp] at hf
+  | .fb, x, c, hf => by simp [findSusp] at hf
+  | .marker, x, c, hf => by simp [findSusp] at hf
+  | .resText _, x, c, hf => by simp [findSusp] at hf
+theorem findSuspList_items (k : Nat) : ∀ (t : RNs) (x : Option Nat) (c : RNs), findSuspList k t = some c →
+    ∀ y ∈ items (some k) c, y ∈ items x t
+  | .nil, x, c, hf => by simp [findSuspList] at hf
+  | .cons n rest, x, c, hf => by
+    simp only [findSuspList] at hf
+    intro y hy
+    simp only [items, List.mem_append]
+    cases hn : findSusp k n with
+    | some c' =>
+      rw [hn] at hf; simp only [Option.some.injEq] at hf; subst hf
+      exact Or.inl (findSusp_items k n x c' hn y hy)
+    | none =>
+      rw [hn] at hf; simp only at hf
+      exact Or.inr (findSuspList_items k rest x c hf y hy)
+end
+
+mutual
+theorem findSusp_none (k : Nat) : ∀ n : RN, k ∉ suspKeysN n → findSusp k n = none
+  | .el tag key kids, hk => by simpa [findSusp] using findSuspList_none k kids (by simpa [suspKeysN] using hk)
+  | .group kids, hk => by simpa [findSusp] using findSuspList_none k kids (by simpa [suspKeysN] using hk)
+  | .susp j a b content, hk => by
+    simp only [suspKeysN, List.mem_cons, not_or] at hk
+    simp only [findSusp, if_neg (fun h : j = k => hk.1 h.symm)]
+    exact findSuspList_none k content hk.2
+  | .hole _, hk => rfl
+  | .text _, hk => rfl
+  | .fb, hk => rfl
+  | .marker, hk => rfl
+  | .resText _, hk => rfl
+theorem findSuspList_none (k : Nat) : ∀ t : RNs, k ∉ suspKeys t → findSuspList k t = none
+  | .nil, hk => rfl
+  | .cons n rest, hk => by
+    simp only [suspKeys, List.mem_append, not_or] at hk
+    simp only [findSuspList, findSusp_none k n hk.1, findSuspList_none k rest hk.2]
+end
+
+mutual
+theorem findSusp_fill (k h : Nat) (c : RNs) (hc : findSuspList k c = none) : ∀ n : RN,
+    findSusp k (fill h c n) = (findSusp k n).map (fillList h c)
+  | .el tag key kids => by simpa only [fill, findSusp] using findSuspList_fill k h c hc kids
+  | .group kids => by simpa only [fill, findSusp] using findSuspList_fill k h c hc kids
+  | .susp j a b content => by
+    simp only [fill, findSusp]
+    split
+    · rfl
+    · exact findSuspList_fill k h c hc content
+  | .hole i => by
+    by_cases hi : i = h
+    · simp [fill, hi, findSusp, hc]
+    · simp [fill, hi, findSusp]
+  | .text _ => rfl
+  | .fb => rfl
+  | .marker => rfl
+  | .resText _ => rfl
+theorem findSuspList_fill (k h : Nat) (c : RNs) (hc : findSuspList k c = none) : ∀ t : RNs,
+    findSuspList k (fillList h c t) = (findSuspList k t).map (fillList h c)
+  | .nil => rfl
+  | .cons n rest => by
+    simp only [fillList, findSuspList, findSusp_fill k h c hc n]
+    cases findSusp k n with
+    | some c' => rfl
+    | none => exact findSuspList_fill k h c hc rest
+end
+
+/-- the region of boundary `k`, rendered in shell form (nested boundaries as fallbacks) -/
+def regionStr (w : World) (k : Nat) : String :=
+  match findSuspList k w.tree with
+  | some c => renderList w.st .shell c
+  | none => ""
+
+theorem fragmentOf_eq (w : World) (k : Nat) :
+    fragmentOf w k = s!"<template id=\"sycamore-suspense-{k}\"><!--/-->" ++ regionStr w k ++
+      s!"<!--/--></template><script>__sycamore_suspense({k})</script>" := rfl
+
+theorem regionStr_congr {w w' : World} (k : Nat) (ht : w'.tree = w.tree) (hr : w'.st.resDone = w.st.resDone) :
+    regionStr w' k = regionStr w k := by
+  rw [regionStr, regionStr, ht]
+  cases findSuspList k w.tree with
+  | none => rfl
+  | some c => exact renderList_shell_congr _ _ c (some k) (fun r _ => by rw [hr])
+
+/-- nothing is registered under boundary `k` any more -/
+def Quiet (k : Nat) (ps : List Pend) (w : World) : Prop :=
+  1 ≤ k ∧ k ≤ w.st.bds.length ∧ (∀ q ∈ w.st.pend ++ ps, q.ctx ≠ some k) ∧ (∀ g ∈ w.st.guards, g.2 ≠ k)
+
+/-- ... and its region reads `F` -/
+def Stable (k : Nat) (F : String) (ps : List Pend) (w : World) : Prop := Quiet k ps w ∧ regionStr w k = F
+
+theorem Micro.stable {k : Nat} {F : String} {ps w ps' w'} (m : Micro ps w ps' w') (hw : WInv ps w)
+    (hs : Stable k F ps w) : Stable k F ps' w' := by
+  obtain ⟨⟨hk1, hk2, hq, hg⟩, hF⟩ := hs
+  cases m with
+  | done w t => exact ⟨⟨hk1, hk2, hq, hg⟩, by rw [← hF]; exact regionStr_congr k rfl rfl⟩
+  | part w =>
+    refine ⟨⟨hk1, hk2, fun q hq' => ?_, hg⟩, by rw [← hF]; exact regionStr_congr k rfl rfl⟩
+    exact hq q (by simpa using (mine_rest_perm w).mem_iff.mp hq')
+  | fill p ps w =>
+    have hb := fillW_built p w
+    have hf := hb.frame
+    have hi := hw.inv
+    have hpk : p.ctx ≠ some k := hq p (by simp)
+    have hp0 := hi.pendOK p (by simp)
+    have hbl := hi.bdsLen
+    refine ⟨⟨hk1, ?_, fun q hq' => ?_, fun g hg' => ?_⟩, ?_⟩
+    · show k ≤ (decr _ p.ctx).bds.length
+      rw [decr_bds_length]; omega
+    · rw [fillW_pend, List.append_assoc] at hq'
+      rcases List.mem_append.mp hq' with h1 | h1
+      · exact hq q (by simp [h1])
+      · rcases List.mem_append.mp h1 with h1 | h1
+        · rcases (hb.pendCtx hp0.1 hi.regsLen q h1).2 with e | ⟨j, e, h2, _⟩
+          · rw [e]; exact hpk
+          · rw [e]; intro h; cases h; omega
+        · exact hq q (by simp [h1])
+    · have hg'' : g ∈ (decr _ p.ctx).guards := hg'
+      rw [decr_guards, hb.pend_eq.2] at hg''
+      rcases List.mem_append.mp hg'' with h1 | h1
+      · exact hg g h1
+      · rcases (hb.guardsCtx g h1).2 with e | e
+        · intro h; rw [h] at e; exact hpk e.symm
+        · omega
+    · rw [← hF, regionStr, regionStr]
+      have hnone : findSuspList k (buildList p.reg p.ctx p.body w.st).1 = none := by
+        apply findSuspList_none
+        intro hm
+        have := List.count_pos_iff.mpr hm
+        rw [hb.susps k] at this
+        split at this <;> omega
+      show (match findSuspList k (fillList p.hole _ w.tree) with
+        | some c => renderList (decr _ p.ctx) .shell c | none => "") = _
+      rw [findSuspList_fill k _ _ hnone]
+      cases hfs : findSuspList k w.tree with
+      | none => rfl
+      | some content =>
+        simp only [Option.map_some]
+        rw [fillList_render_shell _ _ _ content (some k)]
+        · exact renderList_shell_congr _ _ content (some k) (fun r _ => by rw [decr_resDone, hf.2.1])
+        · intro hm
+          have := findSuspList_items k w.tree none content hfs _ hm
+          obtain ⟨q, hq', _, e2⟩ := hi.holeCtx _ _ this
+          exact hq q hq' e2
+  | deliver w r =>
+    rw [deliver_eq]
+    split
+    · exact ⟨⟨hk1, hk2, hq, hg⟩, hF⟩
+    · rename_i hr
+      have h0 : Inv w.st.pend w.st w.tree := by simpa using hw.inv
+      have hd := h0.deliver r (by simpa using hr)
+      refine ⟨⟨hk1, ?_, fun q hq' => ?_, fun g hg' => ?_⟩, ?_⟩
+      · show k ≤ (deliverSt w.st r).bds.length
+        have := hd.2.1.len; omega
+      · have : q ∈ (deliverSt w.st r).pend ++ [] := hq'
+        rw [hd.2.2.2.1] at this; exact hq q this
+      · have : g ∈ (deliverSt w.st r).guards := hg'
+        rw [hd.2.2.2.2.2.1] at this; exact hg g (List.mem_filter.mp this).1
+      · rw [← hF, regionStr, regionStr]
+        show (match findSuspList k w.tree with
+          | some c => renderList (deliverSt w.st r) .shell c | none => "") = _
+        cases hfs : findSuspList k w.tree with
+        | none => rfl
+        | some content =>
+          refine renderList_shell_congr _ _ content (some k) (fun r' hm => ?_)
+          have := findSuspList_items k w.tree none content hfs _ hm
+          rcases h0.resOK r' k this with h1 | h1
+          · rw [hd.2.2.2.2.1]; simp [h1]
+          · exact absurd rfl (hg _ h1)
+  | send w k' =>
+    exact ⟨⟨hk1, by simpa [sendOne] using hk2, hq, hg⟩, by rw [← hF]; exact regionStr_congr k rfl rfl⟩
+
+/-- `w'` comes after `w`: more events, more sending -/
+inductive Later (w : World) : World → Prop
+  | refl : Later w w
+  | step {w'} (e : Ev) : Later w w' → Later w (step w' e)
+  | send {w'} (fuel : Nat) (out : List String) : Later w w' → Later w (sendReady fuel w' out).1
+
+theorem Later.micros {w w'} (h : Later w w') : Micros [] w [] w' := by
+  induction h with
+  | refl => exact Micros.refl _ _
+  | step e _ ih => exact ih.trans (step_micros _ e)
+  | send fuel out _ ih => exact ih.trans (sendReady_micros fuel _ out)
+
+theorem loading_false_count {st : St} {n k : Nat} {b : Bd} (hb : st.bds[k - 1]? = some b)
+    (h : loading st (n + 1) k = false) : b.count = 0 := by
+  rw [loading, hb] at h
+  simp only [Bool.or_eq_false_iff, decide_eq_false_iff_not] at h
+  omega
+
+theorem quiet_of_not_loading {w : World} {k : Nat} (hi : Inv w.st.pend w.st w.tree)
+    (hk : 1 ≤ k ∧ k ≤ w.st.bds.length) (h : loading w.st (w.st.bds.length + 1) k = false) :
+    Quiet k [] w := by
+  obtain ⟨b, hb⟩ : ∃ b, w.st.bds[k - 1]? = some b :=
+    ⟨w.st.bds[k - 1]'(by omega), List.getElem?_eq_getElem (by omega)⟩
+  have hc := loading_false_count hb h
+  have := hi.counts (k - 1)
+  rw [cntL, hb, show k - 1 + 1 = k by omega] at this
+  simp only [Option.map_some, Option.getD_some, hc] at this
+  have h1 : w.st.pend.countP (·.ctx = some k) = 0 := by omega
+  have h2 : w.st.guards.countP (·.2 = k) = 0 := by omega
+  rw [List.countP_eq_zero] at h1 h2
+  refine ⟨hk.1, hk.2, fun q hq => ?_, fun g hg => ?_⟩
+  · simpa using h1 q (by simpa using hq)
+  · simpa using h2 g hg
+
+/-- once nothing is registered under `k`, its region never changes -/
+theorem region_stable {w w' : World} {k : Nat} (hw : WInv [] w) (hq : Quiet k [] w) (hl : Later w w') :
+    Quiet k [] w' ∧ regionStr w' k = regionStr w k :=
+  Micros.keep (S := Stable k (regionStr w k)) (fun m hw hs => m.stable hw hs) hl.micros hw ⟨hq, rfl⟩
+
+/-! ## what the page shows -/
+
+mutual
+/-- the text of the page with every marker, key and wrapper dropped; boundary `k` shows its content if
+`sh k`, the fallback otherwise -/
+def visibleN (sh : Nat → Bool) (st : St) : RN → List String
+  | .el tag _ kids => s!"<{tagOf tag}>" :: (visible sh st kids ++ [s!"</{tagOf tag}>"])
+  | .text n => [s!"t{n}"]
+  | .fb => ["fb"]
+  | .marker => []
+  | .resText r => [if st.resDone.contains r then "r7" else "none"]
+  | .hole _ => []
+  | .group kids => visible sh st kids
+  | .susp k _ _ c => if sh k then visible sh st c else ["fb"]
+def visible (sh : Nat → Bool) (st : St) : RNs → List String
+  | .nil => []
+  | .cons n r => visibleN sh st n ++ visible sh st r
+end
+
+/-- the pieces of the rendered text -/
+inductive Tok where
+  | openT (tag : Nat) (key : Key)
+  | closeT (tag : Nat)
+  | txt (s : String)
+  | raw (s : String)      -- comments, `suspense-start`, `suspense-end`, `no-ssr`: nothing to see
+  | slot (k : Nat)        -- the fallback between `suspense-start k` and `suspense-end k` in shell form
+
+def Tok.str : Tok → String
+  | .openT tag key => s!"<{tagOf tag}{hk key}>"
+  | .closeT tag => s!"</{tagOf tag}>"
+  | .txt s => s
+  | .raw s => s
+  | .slot _ => "fb"
+
+/-- what a piece shows (tags without their key) -/
+def Tok.vis : Tok → Option String
+  | .openT tag _ => some s!"<{tagOf tag}>"
+  | .closeT tag => some s!"</{tagOf tag}>"
+  | .txt s => some s
+  | .raw _ => none
+  | .slot _ => some "fb"
+
+mutual
+def renderToksN (st : St) (how : How) : RN → List Tok
+  | .el tag key kids => .openT tag key :: (renderToks st how kids ++ [.closeT tag])
+  | .text n => [.txt s!"t{n}"]
+  | .fb => [.txt "fb"]
+  | .marker => [.raw "<!--/-->"]
+  | .resText r => [.raw "<!--t-->", .txt (if st.resDone.contains r then "r7" else "none"), .raw "<!-->"]
+  | .hole _ => []
+  | .group kids => renderToks st how kids
+  | .susp k a b c =>
+    match how with
+    | .final =>
+      .raw s!"<suspense-start data-key=\"{k}\"{hk a}></suspense-start><no-ssr{hk b}></no-ssr><!--/-->"
+        :: (renderToks st .final c ++ [.raw "<!--/-->"])
+    | .shell =>
+      [.raw s!"<no-ssr{hk b}></no-ssr><suspense-start data-key=\"{k}\"{hk a}></suspense-start>", .slot k,
+       .raw s!"<suspense-end data-key=\"{k}\"></suspense-end>"]
+def renderToks (st : St) (how : How) : RNs → List Tok
+  | .nil => []
+  | .cons n r => renderToksN st how n ++ renderToks st how r
+end
+
+/-- concatenation -/
+def cat : List String → String
+  | [] => ""
+  | s :: r => s ++ cat r
+
+theorem cat_append : ∀ a b : List String, cat (a ++ b) = cat a ++ cat b
+  | [], b => by simp [cat]
+  | s :: a, b => by simp [cat, cat_append a b, String.append_assoc]
+
+theorem shell_susp_split (k : Nat) (a b : Key) :
+    s!"<no-ssr{hk b}></no-ssr><suspense-start data-key=\"{k}\"{hk a}></suspense-start>fb<suspense-end data-key=\"{k}\"></suspense-end>" =
+      s!"<no-ssr{hk b}></no-ssr><suspense-start data-key=\"{k}\"{hk a}></suspense-start>" ++
+        ("fb" ++ s!"<suspense-end data-key=\"{k}\"></suspense-end>") := by
+  have e : "></suspense-start>fb<suspense-end data-key=\"" =
+      "></suspense-start>" ++ ("fb" ++ "<suspense-end data-key=\"") := by decide
+  show "<no-ssr" ++ hk b ++ "></no-ssr><suspense-start data-key=\"" ++ toString k ++ "\"" ++ hk a ++
+      "></suspense-start>fb<suspense-end data-key=\"" ++ toString k ++ "\"></suspense-end>" =
+    "<no-ssr" ++ hk b ++ "></no-ssr><suspense-start data-key=\"" ++ toString k ++ "\"" ++ hk a ++
+      "></suspense-start>" ++ ("fb" ++ ("<suspense-end data-key=\"" ++ toString k ++ "\"></suspense-end>"))
+  rw [e]; simp only [String.append_assoc]
+
+mutual
+/-- the rendered text is the concatenation of its pieces -/
+theorem render_toks (st : St) (how : How) : ∀ n : RN,
+    render st how n = cat ((renderToksN st how n).map Tok.str)
+  | .el tag key kids => by
+    rw [render_el, renderList_toks st how kids]
+    simp only [renderToksN, List.map_cons, List.map_append, List.map_nil, cat, cat_append, Tok.str,
+      String.append_assoc, String.append_empty]
+  | .text n => by rw [render_text]; simp [renderToksN, cat, Tok.str]
+  | .fb => by rw [render_fb]; simp [renderToksN, cat, Tok.str]
+  | .marker => by rw [render_marker]; simp [renderToksN, cat, Tok.str]
+  | .resText r => by
+    rw [render_resText]; simp [renderToksN, cat, Tok.str, String.append_assoc]
+  | .hole _ => by rw [render_hole]; simp [renderToksN, cat]
+  | .group kids => by rw [render_group, renderList_toks st how kids]; simp [renderToksN]
+  | .susp k a b c => by
+    cases how with
+    | final =>
+      rw [render_susp_final, renderList_toks st .final c]
+      simp only [renderToksN, List.map_cons, List.map_append, List.map_nil, cat, cat_append, Tok.str,
+        String.append_assoc, String.append_empty]
+    | shell =>
+      rw [render_susp_shell, shell_susp_split]
+      simp only [renderToksN, List.map_cons, List.map_nil, cat, Tok.str, String.append_empty]
+theorem renderList_toks (st : St) (how : How) : ∀ t : RNs,
+    renderList st how t = cat ((renderToks st how t).map Tok.str)
+  | .nil => by rw [renderList_nil]; simp [renderToks, cat]
+  | .cons n r => by
+    rw [renderList_cons, render_toks st how n, renderList_toks st how r]
+    simp only [renderToks, List.map_append, cat_append]
+end
+
+mutual
+/-- what the final rendering (sync, blocking) shows: every boundary its content -/
+theorem visible_final (st : St) : ∀ n : RN,
+    visibleN (fun _ => true) st n = (renderToksN st .final n).filterMap Tok.vis
+  | .el tag key kids => by simp [visibleN, renderToksN, Tok.vis, visibleList_final st kids, List.filterMap_append]
+  | .text n => by simp [visibleN, renderToksN, Tok.vis]
+  | .fb => by simp [visibleN, renderToksN, Tok.vis]
+  | .marker => by simp [visibleN, renderToksN, Tok.vis]
+  | .resText r => by simp [visibleN, renderToksN, Tok.vis, List.filterMap_cons]
+  | .hole _ => by simp [visibleN, renderToksN]
+  | .group kids => by simp [visibleN, renderToksN, visibleList_final st kids]
+  | .susp k a b c => by
+    simp [visibleN, renderToksN, Tok.vis, visibleList_final st c, List.filterMap_append, List.filterMap_cons]
+theorem visibleList_final (st : St) : ∀ t : RNs,
+    visible (fun _ => true) st t = (renderToks st .final t).filterMap Tok.vis
+  | .nil => by simp [visible, renderToks]
+  | .cons n r => by
+    simp [visible, renderToks, List.filterMap_append, visible_final st n, visibleList_final st r]
+end
+
+mutual
+/-- what the shell shows: every boundary its fallback -/
+theorem visible_shell (st : St) : ∀ n : RN,
+    visibleN (fun _ => false) st n = (renderToksN st .shell n).filterMap Tok.vis
+  | .el tag key kids => by simp [visibleN, renderToksN, Tok.vis, visibleList_shell st kids, List.filterMap_append]
+  | .text n => by simp [visibleN, renderToksN, Tok.vis]
+  | .fb => by simp [visibleN, renderToksN, Tok.vis]
+  | .marker => by simp [visibleN, renderToksN, Tok.vis]
+  | .resText r => by simp [visibleN, renderToksN, Tok.vis, List.filterMap_cons]
+  | .hole _ => by simp [visibleN, renderToksN]
+  | .group kids => by simp [visibleN, renderToksN, visibleList_shell st kids]
+  | .susp k a b c => by simp [visibleN, renderToksN, Tok.vis, List.filterMap_cons]
+theorem visibleList_shell (st : St) : ∀ t : RNs,
+    visible (fun _ => false) st t = (renderToks st .shell t).filterMap Tok.vis
+  | .nil => by simp [visible, renderToks]
+  | .cons n r => by
+    simp [visible, renderToks, List.filterMap_append, visible_shell st n, visibleList_shell st r]
+end
+
+mutual
+theorem visibleN_congr (sh sh' : Nat → Bool) (st : St) : ∀ n : RN,
+    (∀ k ∈ suspKeysN n, sh k = sh' k) → visibleN sh st n = visibleN sh' st n
+  | .el tag key kids, h => by
+    simp only [visibleN, visible_congr sh sh' st kids (by simpa [suspKeysN] using h)]
+  | .text n, h => rfl
+  | .fb, h => rfl
+  | .marker, h => rfl
+  | .resText r, h => rfl
+  | .hole _, h => rfl
+  | .group kids, h => by
+    simp only [visibleN, visible_congr sh sh' st kids (by simpa [suspKeysN] using h)]
+  | .susp k a b c, h => by
+    simp only [suspKeysN, List.mem_cons, forall_eq_or_imp] at h
+    simp only [visibleN, h.1, visible_congr sh sh' st c h.2]
+theorem visible_congr (sh sh' : Nat → Bool) (st : St) : ∀ t : RNs,
+    (∀ k ∈ suspKeys t, sh k = sh' k) → visible sh st t = visible sh' st t
+  | .nil, h => rfl
+  | .cons n r, h => by
+    simp only [suspKeys, List.mem_append] at h
+    simp only [visible, visibleN_congr sh sh' st n (fun k hk => h k (Or.inl hk)),
+      visible_congr sh sh' st r (fun k hk => h k (Or.inr hk))]
+end
+
+/-! ## the page as the shell with the slots of the sent boundaries filled in -/
+
+mutual
+/-- a region in shell form, with `sub k` in the slot of each nested boundary `k` -/
+def visSubN (sub : Nat → List String) (st : St) : RN → List String
+  | .el tag _ kids => s!"<{tagOf tag}>" :: (visSub sub st kids ++ [s!"</{tagOf tag}>"])
+  | .text n => [s!"t{n}"]
+  | .fb => ["fb"]
+  | .marker => []
+  | .resText r => [if st.resDone.contains r then "r7" else "none"]
+  | .hole _ => []
+  | .group kids => visSub sub st kids
+  | .susp k _ _ _ => sub k
+def visSub (sub : Nat → List String) (st : St) : RNs → List String
+  | .nil => []
+  | .cons n r => visSubN sub st n ++ visSub sub st r
+end
+
+/-- put `sub k` into slot `k`; everything else shows what it shows -/
+def fillSlots (sub : Nat → List String) (toks : List Tok) : List String :=
+  toks.flatMap fun t => match t with
+    | .slot k => sub k
+    | t => t.vis.toList
+
+theorem fillSlots_append (sub : Nat → List String) (a b : List Tok) :
+    fillSlots sub (a ++ b) = fillSlots sub a ++ fillSlots sub b := by simp [fillSlots]
+
+mutual
+theorem visSubN_toks (sub : Nat → List String) (st : St) : ∀ n : RN,
+    visSubN sub st n = fillSlots sub (renderToksN st .shell n)
+  | .el tag key kids => by
+    simp [visSubN, renderToksN, visSub_toks sub st kids, fillSlots, Tok.vis]
+  | .text n => by simp [visSubN, renderToksN, fillSlots, Tok.vis]
+  | .fb => by simp [visSubN, renderToksN, fillSlots, Tok.vis]
+  | .marker => by simp [visSubN, renderToksN, fillSlots, Tok.vis]
+  | .resText r => by simp [visSubN, renderToksN, fillSlots, Tok.vis]
+  | .hole _ => by simp [visSubN, renderToksN, fillSlots]
+  | .group kids => by simp [visSubN, renderToksN, visSub_toks sub st kids]
+  | .susp k a b c => by simp [visSubN, renderToksN, fillSlots, Tok.vis]
+theorem visSub_toks (sub : Nat → List String) (st : St) : ∀ t : RNs,
+    visSub sub st t = fillSlots sub (renderToks st .shell t)
+  | .nil => by simp [visSub, renderToks, fillSlots]
+  | .cons n r => by
+    simp only [visSub, renderToks, fillSlots_append, visSubN_toks sub st n, visSub_toks sub st r]
+end
+
+mutual
+/-- the boundaries of a region that are not nested in another boundary of the region, with their contents -/
+def shellSuspsN : RN → List (Nat × RNs)
+  | .el _ _ kids => shellSusps kids
+  | .group kids => shellSusps kids
+  | .susp k _ _ c => [(k, c)]
+  | _ => []
+def shellSusps : RNs → List (Nat × RNs)
+  | .nil => []
+  | .cons n r => shellSuspsN n ++ shellSusps r
+end
+
+mutual
+/-- all boundaries with their contents -/
+def allSuspsN : RN → List (Nat × RNs)
+  | .el _ _ kids => allSusps kids
+  | .group kids => allSusps kids
+  | .susp k _ _ c => (k, c) :: allSusps c
+  | _ => []
+def allSusps : RNs → List (Nat × RNs)
+  | .nil => []
+  | .cons n r => allSuspsN n ++ allSusps r
+end
+
+mutual
+theorem shellN_sub_all : ∀ (n : RN) (y : Nat × RNs), y ∈ shellSuspsN n → y ∈ allSuspsN n
+  | .el _ _ kids, y, h => by simpa only [allSuspsN] using shell_sub_all kids y (by simpa only [shellSuspsN] using h)
+  | .group kids, y, h => by simpa only [allSuspsN] using shell_sub_all kids y (by simpa only [shellSuspsN] using h)
+  | .susp k _ _ c, y, h => by
+    simp only [shellSuspsN, List.mem_singleton] at h; simp [allSuspsN, h]
+  | .text _, y, h => by simp [shellSuspsN] at h
+  | .fb, y, h => by simp [shellSuspsN] at h
+  | .marker, y, h => by simp [shellSuspsN] at h
+  | .resText _, y, h => by simp [shellSuspsN] at h
+  | .hole _, y, h => by simp [shellSuspsN] at h
+theorem shell_sub_all : ∀ (t : RNs) (y : Nat × RNs), y ∈ shellSusps t → y ∈ allSusps t
+  | .nil, y, h => by simp [shellSusps] at h
+  | .cons n r, y, h => by
+    simp only [shellSusps, List.mem_append] at h
+    simp only [allSusps, List.mem_append]
+    exact h.elim (fun h => Or.inl (shellN_sub_all n y h)) (fun h => Or.inr (shell_sub_all r y h))
+end
+
+mutual
+theorem allN_trans : ∀ (n : RN) (k : Nat) (c : RNs), (k, c) ∈ allSuspsN n → ∀ y ∈ allSusps c, y ∈ allSuspsN n
+  | .el _ _ kids, k, c, h => by simpa only [allSuspsN] using all_trans kids k c (by simpa only [allSuspsN] using h)
+  | .group kids, k, c, h => by simpa only [allSuspsN] using all_trans kids k c (by simpa only [allSuspsN] using h)
+  | .susp j _ _ content, k, c, h => by
+    simp only [allSuspsN, List.mem_cons] at h ⊢
+    rcases h with h | h
+    · cases h; exact fun y hy => Or.inr hy
+    · exact fun y hy => Or.inr (all_trans content k c h y hy)
+  | .text _, k, c, h => by simp [allSuspsN] at h
+  | .fb, k, c, h => by simp [allSuspsN] at h
+  | .marker, k, c, h => by simp [allSuspsN] at h
+  | .resText _, k, c, h => by simp [allSuspsN] at h
+  | .hole _, k, c, h => by simp [allSuspsN] at h
+theorem all_trans : ∀ (t : RNs) (k : Nat) (c : RNs), (k, c) ∈ allSusps t → ∀ y ∈ allSusps c, y ∈ allSusps t
+  | .nil, k, c, h => by simp [allSusps] at h
+  | .cons n r, k, c, h => by
+    simp only [allSusps, List.mem_append] at h ⊢
+    exact fun y hy => h.elim (fun h => Or.inl (allN_trans n k c h y hy)) (fun h => Or.inr (all_trans r k c h y hy))
+end
+
+mutual
+theorem allN_key : ∀ (n : RN) (k : Nat) (c : RNs), (k, c) ∈ allSuspsN n → k ∈ suspKeysN n
+  | .el _ _ kids, k, c, h => by simpa only [suspKeysN] using all_key kids k c (by simpa only [allSuspsN] using h)
+  | .group kids, k, c, h => by simpa only [suspKeysN] using all_key kids k c (by simpa only [allSuspsN] using h)
+  | .susp j _ _ content, k, c, h => by
+    simp only [allSuspsN, List.mem_cons] at h
+    simp only [suspKeysN, List.mem_cons]
+    rcases h with h | h
+    · cases h; exact Or.inl rfl
+    · exact Or.inr (all_key content k c h)
+  | .text _, k, c, h => by simp [allSuspsN] at h
+  | .fb, k, c, h => by simp [allSuspsN] at h
+  | .marker, k, c, h => by simp [allSuspsN] at h
+  | .resText _, k, c, h => by simp [allSuspsN] at h
+  | .hole _, k, c, h => by simp [allSuspsN] at h
+theorem all_key : ∀ (t : RNs) (k : Nat) (c : RNs), (k, c) ∈ allSusps t → k ∈ suspKeys t
+  | .nil, k, c, h => by simp [allSusps] at h
+  | .cons n r, k, c, h => by
+    simp only [allSusps, List.mem_append] at h
+    simp only [suspKeys, List.mem_append]
+    exact h.elim (fun h => Or.inl (allN_key n k c h)) (fun h => Or.inr (all_key r k c h))
+end
+
+mutual
+theorem findSusp_mem_all (k : Nat) : ∀ (n : RN) (c : RNs), findSusp k n = some c → (k, c) ∈ allSuspsN n
+  | .el _ _ kids, c, h => by
+    simpa only [allSuspsN] using findSuspList_mem_all k kids c (by simpa [findSusp] using h)
+  | .group kids, c, h => by
+    simpa only [allSuspsN] using findSuspList_mem_all k kids c (by simpa [findSusp] using h)
+  | .susp j _ _ content, c, h => by
+    simp only [findSusp] at h
+    simp only [allSuspsN, List.mem_cons]
+    split at h
+    · rename_i hj; subst hj; cases h; exact Or.inl rfl
+    · exact Or.inr (findSuspList_mem_all k content c h)
+  | .text _, c, h => by simp [findSusp] at h
+  | .fb, c, h => by simp [findSusp] at h
+  | .marker, c, h => by simp [findSusp] at h
+  | .resText _, c, h => by simp [findSusp] at h
+  | .hole _, c, h => by simp [findSusp] at h
+theorem findSuspList_mem_all (k : Nat) : ∀ (t : RNs) (c : RNs), findSuspList k t = some c → (k, c) ∈ allSusps t
+  | .nil, c, h => by simp [findSuspList] at h
+  | .cons n r, c, h => by
+    simp only [findSuspList] at h
+    simp only [allSusps, List.mem_append]
+    cases hn : findSusp k n with
+    | some c' =>
+      rw [hn] at h; simp only [Option.some.injEq] at h; subst h
+      exact Or.inl (findSusp_mem_all k n c' hn)
+    | none =>
+      rw [hn] at h; simp only at h
+      exact Or.inr (findSuspList_mem_all k r c h)
+end
+
+mutual
+/-- with distinct keys, `findSusp` finds every boundary -/
+theorem findSusp_of_all : ∀ (n : RN), (suspKeysN n).Nodup → ∀ (k : Nat) (c : RNs), (k, c) ∈ allSuspsN n →
+    findSusp k n = some c
+  | .el _ _ kids, hn, k, c, h => by
+    simpa only [findSusp] using findSuspList_of_all kids (by simpa only [suspKeysN] using hn) k c
+      (by simpa only [allSuspsN] using h)
+  | .group kids, hn, k, c, h => by
+    simpa only [findSusp] using findSuspList_of_all kids (by simpa only [suspKeysN] using hn) k c
+      (by simpa only [allSuspsN] using h)
+  | .susp j _ _ content, hn, k, c, h => by
+    simp only [suspKeysN, List.nodup_cons] at hn
+    simp only [allSuspsN, List.mem_cons] at h
+    simp only [findSusp]
+    rcases h with h | h
+    · cases h; simp
+    · have hk := all_key content k c h
+      have : j ≠ k := fun e => hn.1 (e ▸ hk)
+      rw [if_neg this]
+      exact findSuspList_of_all content hn.2 k c h
+  | .text _, hn, k, c, h => by simp [allSuspsN] at h
+  | .fb, hn, k, c, h => by simp [allSuspsN] at h
+  | .marker, hn, k, c, h => by simp [allSuspsN] at h
+  | .resText _, hn, k, c, h => by simp [allSuspsN] at h
+  | .hole _, hn, k, c, h => by simp [allSuspsN] at h
+theorem findSuspList_of_all : ∀ (t : RNs), (suspKeys t).Nodup → ∀ (k : Nat) (c : RNs), (k, c) ∈ allSusps t →
+    findSuspList k t = some c
+  | .nil, hn, k, c, h => by simp [allSusps] at h
+  | .cons n r, hn, k, c, h => by
+    simp only [suspKeys, List.nodup_append] at hn
+    simp only [allSusps, List.mem_append] at h
+    simp only [findSuspList]
+    rcases h with h | h
+    · rw [findSusp_of_all n hn.1 k c h]
+    · have hk := all_key r k c h
+      have : k ∉ suspKeysN n := fun hk' => hn.2.2 k hk' k hk rfl
+      rw [findSusp_none k n this]
+      exact findSuspList_of_all r hn.2.1 k c h
+end
+
+mutual
+theorem visibleN_visSub (sh : Nat → Bool) (st : St) (region : Nat → RNs) : ∀ n : RN,
+    (∀ y ∈ shellSuspsN n, region y.1 = y.2) →
+    visibleN sh st n = visSubN (fun k => if sh k then visible sh st (region k) else ["fb"]) st n
+  | .el _ _ kids, h => by
+    simp only [visibleN, visSubN, visible_visSub sh st region kids (by simpa only [shellSuspsN] using h)]
+  | .group kids, h => by
+    simp only [visibleN, visSubN, visible_visSub sh st region kids (by simpa only [shellSuspsN] using h)]
+  | .susp k _ _ c, h => by
+    have := h (k, c) (by simp [shellSuspsN])
+    simp only [visibleN, visSubN, this]
+  | .text _, h => rfl
+  | .fb, h => rfl
+  | .marker, h => rfl
+  | .resText _, h => rfl
+  | .hole _, h => rfl
+theorem visible_visSub (sh : Nat → Bool) (st : St) (region : Nat → RNs) : ∀ t : RNs,
+    (∀ y ∈ shellSusps t, region y.1 = y.2) →
+    visible sh st t = visSub (fun k => if sh k then visible sh st (region k) else ["fb"]) st t
+  | .nil, h => rfl
+  | .cons n r, h => by
+    simp only [shellSusps, List.mem_append] at h
+    simp only [visible, visSub, visibleN_visSub sh st region n (fun y hy => h y (Or.inl hy)),
+      visible_visSub sh st region r (fun y hy => h y (Or.inr hy))]
+end
+
+/-- the content of boundary `k` in `w` -/
+def regionOf (w : World) (k : Nat) : RNs := (findSuspList k w.tree).getD .nil
+
+/-! ## streaming: a parent is emitted before its children -/
+
+/-- old boundaries keep their parent -/
+def ParKeep (l l' : List Bd) : Prop :=
+  ∀ (j : Nat) (b : Bd), l[j]? = some b → ∃ b' : Bd, l'[j]? = some b' ∧ b'.parent = b.parent
+
+theorem ParKeep.of_ext {l l' : List Bd} (h : BdsExt l l') : ParKeep l l' := fun j b hb => by
+  obtain ⟨b', h1, _, h2⟩ := h.old j b hb; exact ⟨b', h1, h2⟩
+
+theorem Micro.parKeep {ps w ps' w'} (m : Micro ps w ps' w') (hw : WInv ps w) :
+    ParKeep w.st.bds w'.st.bds := by
+  cases m with
+  | done w t => exact fun j b hb => ⟨b, hb, rfl⟩
+  | part w => exact fun j b hb => ⟨b, hb, rfl⟩
+  | fill p ps w =>
+    have hp := hw.inv.pendOK p (by simp)
+    exact ParKeep.of_ext (((fillW_built p w).bdsExt hp.2 hw.inv.bdsLen).trans (BdsExt.decr _ _))
+  | deliver w r =>
+    rw [deliver_eq]; split
+    · exact fun j b hb => ⟨b, hb, rfl⟩
+    · rename_i hr
+      have h0 : Inv w.st.pend w.st w.tree := by simpa using hw.inv
+      exact ParKeep.of_ext (h0.deliver r (by simpa using hr)).2.1
+  | send w k =>
+    intro j b hb
+    show ∃ b', (w.st.bds.modify (k - 1) fun b => { b with sent := true })[j]? = some b' ∧ _
+    rw [List.getElem?_modify, hb]
+    by_cases hk : k - 1 = j <;> simp [hk]
+
+theorem Micros.parKeep {ps w ps' w'} (m : Micros ps w ps' w') (hw : WInv ps w) :
+    ParKeep w.st.bds w'.st.bds := by
+  induction m with
+  | refl => exact fun j b hb => ⟨b, hb, rfl⟩
+  | tail m1 m ih =>
+    intro j b hb
+    obtain ⟨b1, h1, e1⟩ := ih j b hb
+    obtain ⟨b2, h2, e2⟩ := m.parKeep (m1.inv hw) j b1 h1
+    exact ⟨b2, h2, e2.trans e1⟩
+
+/-- the parent of boundary `k` in world `w` -/
+def parOf (w : World) (k : Nat) : Option Nat := (w.st.bds[k - 1]?).bind (·.parent)
+
+/-- every key in the list comes after its parent, unless the parent was `seen` before -/
+def PFirst (par : Nat → Option Nat) : (Nat → Prop) → List Nat → Prop
+  | _, [] => True
+  | seen, k :: L => (∀ p, par k = some p → seen p) ∧ PFirst par (fun x => seen x ∨ x = k) L
+
+theorem PFirst.mono {par : Nat → Option Nat} : ∀ {L : List Nat} {seen seen' : Nat → Prop},
+    (∀ x, seen x → seen' x) → PFirst par seen L → PFirst par seen' L
+  | [], _, _, _, _ => trivial
+  | k :: L, _, _, hs, h =>
+    ⟨fun p hp => hs p (h.1 p hp), PFirst.mono (fun x hx => hx.elim (fun h => Or.inl (hs x h)) Or.inr) h.2⟩
+
+theorem PFirst.append {par : Nat → Option Nat} : ∀ {A B : List Nat} {seen : Nat → Prop},
+    PFirst par seen A → PFirst par (fun x => seen x ∨ x ∈ A) B → PFirst par seen (A ++ B)
+  | [], B, seen, _, hb => PFirst.mono (fun x hx => by simpa using hx) hb
+  | k :: A, B, seen, ha, hb =>
+    ⟨ha.1, PFirst.append ha.2 (PFirst.mono (fun x hx => by
+      rcases hx with h | h
+      · exact Or.inl (Or.inl h)
+      · rcases List.mem_cons.mp h with h | h
+        · exact Or.inl (Or.inr h)
+        · exact Or.inr h) hb)⟩
+
+theorem PFirst.split {par : Nat → Option Nat} : ∀ {l1 : List Nat} {k : Nat} {l2 : List Nat} {seen : Nat → Prop},
+    PFirst par seen (l1 ++ k :: l2) → ∀ p, par k = some p → seen p ∨ p ∈ l1
+  | [], k, l2, seen, h, p, hp => Or.inl (h.1 p hp)
+  | a :: l1, k, l2, seen, h, p, hp => by
+    rcases PFirst.split (l1 := l1) h.2 p hp with (h' | h') | h'
+    · exact Or.inl h'
+    · exact Or.inr (by simp [h'])
+    · exact Or.inr (by simp [h'])
+
+/-- boundary `p` exists with a key ≥ 1 and has been sent -/
+def seenW (w : World) (p : Nat) : Prop := 1 ≤ p ∧ sentI w (p - 1) = true
+
+theorem sendReady_succ_ready {fuel : Nat} {w : World} {out : List String} {k : Nat} {rest : List Nat}
+    (hc : ¬ w.closed = true) (hk : readyList w = k :: rest) :
+    sendReady (fuel + 1) w out = sendReady fuel (sendOne w k) (out ++ [fragmentOf w k]) := by
+  rw [sendReady_succ, if_neg hc, hk]
+
+theorem sendTrace_to_end : ∀ (fuel : Nat) (w : World) (x : World × Nat),
+    x ∈ sendTrace fuel w → Micros [] x.1 [] (sendReady fuel w []).1
+  | 0, w, x, h => by simp [sendTrace] at h
+  | fuel + 1, w, x, h => by
+    rw [sendTrace] at h
+    split at h
+    · cases h
+    · rename_i hc
+      split at h
+      · cases h
+      · rename_i k rest hk
+        rw [sendReady_succ_ready hc hk, sendReady_trace]
+        rcases List.mem_cons.mp h with rfl | h
+        · exact (Micros.single (Micro.send w k)).trans (sendReady_micros fuel _ [])
+        · exact sendTrace_to_end fuel _ x h
+
+theorem sendTrace_pfirst (par : Nat → Option Nat) : ∀ (fuel : Nat) (w : World), WInv [] w →
+    (∀ x ∈ sendTrace fuel w, ∀ b, x.1.st.bds[x.2 - 1]? = some b → par x.2 = b.parent) →
+    PFirst par (seenW w) ((sendTrace fuel w).map (·.2))
+  | 0, w, _, _ => by simp [sendTrace, PFirst]
+  | fuel + 1, w, hw, hpar => by
+    rw [sendTrace] at hpar ⊢
+    split
+    · trivial
+    · rename_i hc
+      rw [if_neg hc] at hpar
+      split
+      · trivial
+      · rename_i k rest hk
+        simp only [hk] at hpar
+        have hmem : k ∈ readyList w := by rw [hk]; exact List.mem_cons_self ..
+        obtain ⟨hpoll, b, hb, _, _, hps⟩ := mem_readyList hmem
+        have hk1 := (hw.pollOK k hpoll).1
+        have hi : Inv w.st.pend w.st w.tree := by simpa using hw.inv
+        have hw' : WInv [] (sendOne w k) := (Micro.send w k).inv hw
+        refine ⟨fun p hp => ?_, ?_⟩
+        · have e := hpar (w, k) (List.mem_cons_self ..) b hb
+          have hbp : b.parent = some p := by rw [← e]; exact hp
+          exact ⟨(hi.parents (k - 1) b hb p hbp).1, hps p hbp⟩
+        · refine PFirst.mono (fun x hx => ?_)
+            (sendTrace_pfirst par fuel (sendOne w k) hw' (fun x hx => hpar x (List.mem_cons_of_mem _ hx)))
+          obtain ⟨hx1, hx2⟩ := hx
+          rw [sentI_sendOne] at hx2
+          split at hx2
+          · rename_i hc; exact Or.inr (by simp only at hc ⊢; omega)
+          · exact Or.inl ⟨hx1, hx2⟩
+
+theorem streamRun_micros : ∀ (es : List Ev) (w : World), Micros [] w [] (streamRun w es).1
+  | [], w => Micros.refl _ _
+  | e :: es, w => by
+    rw [streamRun]
+    simp only [sendReadyK_trace]
+    exact ((step_micros w e).trans (sendReady_micros _ _ _)).trans (streamRun_micros es _)
+
+theorem parOf_keep {w' wf : World} (hm : Micros [] w' [] wf) (hw : WInv [] w') {k : Nat} {b : Bd}
+    (hb : w'.st.bds[k - 1]? = some b) : parOf wf k = b.parent := by
+  obtain ⟨b', h1, h2⟩ := hm.parKeep hw (k - 1) b hb
+  rw [parOf, h1]; exact h2
+
+theorem streamRun_pfirst : ∀ (es : List Ev) (w wf : World), WInv [] w → Micros [] (streamRun w es).1 [] wf →
+    PFirst (parOf wf) (seenW w) (streamRun w es).2
+  | [], w, wf, _, _ => trivial
+  | e :: es, w, wf, hw, hm => by
+    have hx := step_bdsExt hw e
+    have h1 : WInv [] (step w e) := (step_micros w e).inv hw
+    have sp := sendTrace_spec ((step w e).st.bds.length + 1) (step w e)
+    have pos := sendTrace_keys_pos ((step w e).st.bds.length + 1) (step w e) h1
+    have h2 : WInv [] (sendReady ((step w e).st.bds.length + 1) (step w e) []).1 :=
+      (sendReady_micros _ _ _).inv h1
+    rw [streamRun] at hm ⊢
+    simp only [sendReadyK_trace, List.nil_append] at hm ⊢
+    have ih := streamRun_pfirst es _ wf h2 hm
+    have hback : ∀ x, seenW (step w e) x → seenW w x := by
+      rintro x ⟨hx1, hx2⟩
+      refine ⟨hx1, ?_⟩
+      by_cases hlt : x - 1 < w.st.bds.length
+      · rw [← sentI_ext hx _ hlt]; exact hx2
+      · rw [sentI_new hx _ (by omega)] at hx2; cases hx2
+    apply PFirst.append
+    · refine PFirst.mono hback (sendTrace_pfirst _ _ _ h1 (fun x hx b hb => ?_))
+      have hm1 := sendTrace_mem_ready _ _ x hx
+      have hm2 := sendTrace_to_end _ _ x hx
+      exact parOf_keep ((hm2.trans (streamRun_micros es _)).trans hm) (hm1.2.inv h1) hb
+    · refine PFirst.mono (fun x hx => ?_) ih
+      obtain ⟨hx1, hx2⟩ := hx
+      rcases sp.2.2.2 _ hx2 with h' | ⟨k, hk, e'⟩
+      · exact Or.inl (hback x ⟨hx1, h'⟩)
+      · have := pos k hk
+        exact Or.inr (by rwa [show x = k by omega])
+
+theorem streamAll_pfirst (vs : AVs) (es : List Ev) :
+    PFirst (parOf (streamAll vs es).1) (fun _ => False) (streamAll vs es).2 := by
+  have h0 : WInv [] (World.start .stream vs) := WInv.start _ _
+  have sp := sendTrace_spec ((World.start .stream vs).st.bds.length + 1) (World.start .stream vs)
+  have pos := sendTrace_keys_pos ((World.start .stream vs).st.bds.length + 1) _ h0
+  have h1 := (sendReady_micros ((World.start .stream vs).st.bds.length + 1) (World.start .stream vs) []).inv h0
+  rw [streamAll]
+  simp only [sendReadyK_trace, List.nil_append]
+  have ih := streamRun_pfirst es _ _ h1 (Micros.refl _ _)
+  apply PFirst.append
+  · refine PFirst.mono (fun x hx => ?_) (sendTrace_pfirst _ _ _ h0 (fun x hx b hb => ?_))
+    · obtain ⟨_, hx2⟩ := hx; rw [start_unsent] at hx2; cases hx2
+    · have hm1 := sendTrace_mem_ready _ _ x hx
+      have hm2 := sendTrace_to_end _ _ x hx
+      exact parOf_keep (hm2.trans (streamRun_micros es _)) (hm1.2.inv h0) hb
+  · refine PFirst.mono (fun x hx => ?_) ih
+    obtain ⟨hx1, hx2⟩ := hx
+    rcases sp.2.2.2 _ hx2 with h' | ⟨k, hk, e'⟩
+    · rw [start_unsent] at h'; cases h'
+    · have := pos k hk
+      exact Or.inr (by rwa [show x = k by omega])
+
+/-- views from lists (for the examples) -/
+def avs (l : List AV) : AVs := l.foldr .cons .nil
 
 /-! ## from counting to permutations -/
 
